@@ -58,29 +58,44 @@ def count_cp_kernels(spec):
     return 0
 
 
-def build_repo_kernel(spec, via_add=False):
-    """Instantiate the library's covariance object for a spec."""
+def build_repo_kernel(spec, via_add=False, share=False, _pool=None):
+    """Instantiate the library's covariance object for a spec.
+    via_add: False -> CompositeCovariance([...]);  True / "left" -> ((a + b) + c) + d;  "right" -> a + (b + (c + d));
+             "balanced" -> (a + b) + (c + d).   (all give the components in the order written)
+    share:   leaves of the same class are one and the same object (kernels hold no hyper-parameter values, so a user may well
+             write  se = SquaredExponential(); k = se + se + WhiteNoise())."""
     from inference.gp import covariance as C
 
+    pool = {} if _pool is None else _pool
     k = spec[0]
-    if k == "SE":
-        return C.SquaredExponential()
-    if k == "RQ":
-        return C.RationalQuadratic()
-    if k == "WN":
-        return C.WhiteNoise()
-    if k == "HN":
-        return C.HeteroscedasticNoise()
+    leaf = {"SE": C.SquaredExponential, "RQ": C.RationalQuadratic, "WN": C.WhiteNoise, "HN": C.HeteroscedasticNoise}
+    if k in leaf:
+        if share:
+            if k not in pool:
+                pool[k] = leaf[k]()
+            return pool[k]
+        return leaf[k]()
     if k == "SUM":
-        parts = [build_repo_kernel(s, via_add) for s in spec[1]]
-        if via_add:
-            out = parts[0]
-            for p in parts[1:]:
-                out = out + p
+        parts = [build_repo_kernel(s, via_add, share, pool) for s in spec[1]]
+        if not via_add:
+            return C.CompositeCovariance(parts)
+
+        def fold(ps):
+            if len(ps) == 1:
+                return ps[0]
+            if via_add == "right":
+                return ps[0] + fold(ps[1:])
+            if via_add == "balanced":
+                h = len(ps) // 2
+                return fold(ps[:h]) + fold(ps[h:])
+            out = ps[0]
+            for q in ps[1:]:
+                out = out + q
             return out
-        return C.CompositeCovariance(parts)
+
+        return fold(parts)
     if k == "CP":
-        return C.ChangePoint(kernels=[build_repo_kernel(s, via_add) for s in spec[2]], axis=spec[1])
+        return C.ChangePoint(kernels=[build_repo_kernel(s, via_add, share, pool) for s in spec[2]], axis=spec[1])
     raise ValueError(spec)
 
 
